@@ -76,7 +76,7 @@ func runC11(c *explore.Ctx) {
 // ---- E2: wire level, every rand.Intn pick enumerated
 
 var c11Ops = []string{
-	"m1 joins $share/g/a (q1)", "m2 joins $share/g/a (q0)", "m3 joins $share/g/a (q1)", "m1 joins $share/h/a (q1)", "m2 subscribes a (q1)", "m3 joins $share/g/# (q1)",
+	"m1 joins $share/g/a (q1 id11)", "m2 joins $share/g/a (q0 id22)", "m3 joins $share/g/a (q2 id33)", "m1 joins $share/h/a (q2 id14)", "m2 subscribes a (q1 id25)", "m3 joins $share/g/# (q1 id36)",
 	"m1 UNSUBSCRIBE $share/g/a", "m2 DISCONNECT (session ends)", "m3 taken over with clean start", "TerminateSession(m1)", "m3 closes and its session expires",
 	"publish a", "publish $SYS/a",
 }
@@ -84,7 +84,12 @@ var c11Ops = []string{
 type c11Member struct {
 	cl     *harness.Client
 	online bool
-	subs   map[string]byte // full filter -> qos
+	subs   map[string]c11Sub // full filter -> granted qos, subscription identifier
+}
+
+type c11Sub struct {
+	qos byte
+	id  uint32
 }
 
 func c11WireBody(seq []int, report func(rule, class, want, got string), applied *int) func() {
@@ -106,17 +111,17 @@ func c11WireBody(seq []int, report func(rule, class, want, got string), applied 
 				o.Props = &refmqtt.Props{SessionExpiry: harness.U32(expiry[i])}
 			}
 			cl.Connect(o)
-			ms[i] = &c11Member{cl: cl, online: true, subs: map[string]byte{}}
+			ms[i] = &c11Member{cl: cl, online: true, subs: map[string]c11Sub{}}
 		}
 		for i := range ms {
 			connect(i, fmt.Sprintf("M%d", i+1))
 		}
-		join := func(i int, f string, q byte) bool {
+		join := func(i int, f string, q byte, id uint32) bool {
 			m := ms[i]
 			if !m.online {
 				return false
 			}
-			ack, rest := m.cl.Subscribe(0, refmqtt.Sub{Filter: f, QoS: q})
+			ack, rest := m.cl.Subscribe(id, refmqtt.Sub{Filter: f, QoS: q})
 			if ack == nil || ack.Codes[0] >= 0x80 {
 				report("subscribe", "refused", "granted", fmt.Sprint(ack))
 				return false
@@ -125,7 +130,11 @@ func c11WireBody(seq []int, report func(rule, class, want, got string), applied 
 				report("no-retained-on-shared-subscribe", "packets-after-suback", "nothing", pktStrs(rest))
 				return false
 			}
-			m.subs[f] = q
+			if ack.Codes[0] != q {
+				report("subscribe", "granted-qos-differs", fmt.Sprint(q), fmt.Sprint(ack.Codes[0]))
+				return false
+			}
+			m.subs[f] = c11Sub{q, id}
 			return true
 		}
 		npub := 0
@@ -133,17 +142,17 @@ func c11WireBody(seq []int, report func(rule, class, want, got string), applied 
 			ok := true
 			switch op {
 			case 0:
-				ok = join(0, "$share/g/a", 1)
+				ok = join(0, "$share/g/a", 1, 11)
 			case 1:
-				ok = join(1, "$share/g/a", 0)
+				ok = join(1, "$share/g/a", 0, 22)
 			case 2:
-				ok = join(2, "$share/g/a", 1)
+				ok = join(2, "$share/g/a", 2, 33)
 			case 3:
-				ok = join(0, "$share/h/a", 1)
+				ok = join(0, "$share/h/a", 2, 14)
 			case 4:
-				ok = join(1, "a", 1)
+				ok = join(1, "a", 1, 25)
 			case 5:
-				ok = join(2, "$share/g/#", 1)
+				ok = join(2, "$share/g/#", 1, 36)
 			case 6:
 				m := ms[0]
 				if !m.online {
@@ -164,7 +173,7 @@ func c11WireBody(seq []int, report func(rule, class, want, got string), applied 
 				vsched.Settle()
 				m.cl.Close()
 				vsched.Settle()
-				m.online, m.subs = false, map[string]byte{}
+				m.online, m.subs = false, map[string]c11Sub{}
 			case 8:
 				if !ms[2].online {
 					ok = false
@@ -174,7 +183,7 @@ func c11WireBody(seq []int, report func(rule, class, want, got string), applied 
 			case 9:
 				w.Srv.ClientService().TerminateSession("m1")
 				vsched.Settle()
-				ms[0].online, ms[0].subs = false, map[string]byte{}
+				ms[0].online, ms[0].subs = false, map[string]c11Sub{}
 			case 10:
 				m := ms[2]
 				if !m.online {
@@ -184,7 +193,7 @@ func c11WireBody(seq []int, report func(rule, class, want, got string), applied 
 				m.cl.Close()
 				vsched.Settle()
 				vsched.Advance(26 * time.Second)
-				m.online, m.subs = false, map[string]byte{}
+				m.online, m.subs = false, map[string]c11Sub{}
 			case 11, 12:
 				topic := "a"
 				if op == 12 {
@@ -192,13 +201,17 @@ func c11WireBody(seq []int, report func(rule, class, want, got string), applied 
 				}
 				npub++
 				pl := fmt.Sprintf("x%d", npub)
-				p.Send(&refmqtt.Packet{Type: refmqtt.PUBLISH, Topic: topic, QoS: 1, PacketID: uint16(npub), Payload: []byte(pl)})
+				p.Send(&refmqtt.Packet{Type: refmqtt.PUBLISH, Topic: topic, QoS: 2, PacketID: uint16(npub), Payload: []byte(pl)})
+				vsched.Settle()
+				p.Recv()
+				p.Send(&refmqtt.Packet{Type: refmqtt.PUBREL, PacketID: uint16(npub)})
 				vsched.Settle()
 				p.Recv()
 				// collect
 				type copyT struct {
 					m   int
 					qos byte
+					ids []uint32
 				}
 				var copies []copyT
 				for mi, m := range ms {
@@ -207,10 +220,31 @@ func c11WireBody(seq []int, report func(rule, class, want, got string), applied 
 					}
 					for _, r := range m.cl.Recv() {
 						if r.P != nil && r.P.Type == refmqtt.PUBLISH && string(r.P.Payload) == pl {
-							copies = append(copies, copyT{mi, r.P.QoS})
+							cp := copyT{m: mi, qos: r.P.QoS}
+							if r.P.Props != nil {
+								cp.ids = r.P.Props.SubIDs
+							}
+							copies = append(copies, cp)
 							if r.P.QoS == 1 {
 								m.cl.Send(&refmqtt.Packet{Type: refmqtt.PUBACK, PacketID: r.P.PacketID})
 							}
+							if r.P.QoS == 2 {
+								m.cl.Send(&refmqtt.Packet{Type: refmqtt.PUBREC, PacketID: r.P.PacketID})
+							}
+						}
+						if r.P != nil && r.P.Type == refmqtt.PUBREL {
+							m.cl.Send(&refmqtt.Packet{Type: refmqtt.PUBCOMP, PacketID: r.P.PacketID})
+						}
+					}
+				}
+				vsched.Settle()
+				for _, m := range ms {
+					if !m.online {
+						continue
+					}
+					for _, r := range m.cl.Recv() {
+						if r.P != nil && r.P.Type == refmqtt.PUBREL {
+							m.cl.Send(&refmqtt.Packet{Type: refmqtt.PUBCOMP, PacketID: r.P.PacketID})
 						}
 					}
 				}
@@ -272,10 +306,51 @@ func c11WireBody(seq []int, report func(rule, class, want, got string), applied 
 					report("delivery", cl, fmt.Sprintf("one copy per group %v", groups), fmt.Sprint(per))
 					return
 				}
-				for _, cp := range copies {
-					if cp.qos > 1 {
-						report("delivery", "qos-above-published", "<=1", fmt.Sprint(cp.qos))
-						return
+				// every copy a member received must be the copy of one of ITS OWN matching
+				// subscriptions: QoS min(2, its granted QoS) and its own subscription identifier;
+				// distinct copies stand for distinct subscriptions of that member
+				for mi, m := range ms {
+					type want struct {
+						f   string
+						qos byte
+						id  uint32
+					}
+					var wants []want
+					for f, si := range m.subs {
+						_, filt, _ := refmqtt.SplitShared(f)
+						if refmqtt.Match(topic, filt) {
+							wants = append(wants, want{f, si.qos, si.id})
+						}
+					}
+					for _, cp := range copies {
+						if cp.m != mi {
+							continue
+						}
+						hit := -1
+						for k, wt := range wants {
+							if cp.qos == wt.qos && len(cp.ids) == 1 && cp.ids[0] == wt.id {
+								hit = k
+								break
+							}
+						}
+						if hit < 0 {
+							cl := "copy-matches-no-subscription-of-the-receiver"
+							for _, wt := range wants {
+								if len(cp.ids) == 1 && cp.ids[0] == wt.id {
+									cl = "copy-qos-is-not-min-of-published-and-the-members-granted-qos"
+								}
+							}
+							for mj, o := range ms {
+								for _, si := range o.subs {
+									if mj != mi && len(cp.ids) == 1 && cp.ids[0] == si.id {
+										cl = "copy-carries-another-members-subscription"
+									}
+								}
+							}
+							report("delivery", cl, fmt.Sprintf("member %d: one of (filter qos id) %v", mi+1, wants), fmt.Sprintf("qos %d ids %v", cp.qos, cp.ids))
+							return
+						}
+						wants = append(wants[:hit], wants[hit+1:]...)
 					}
 				}
 			}
